@@ -261,6 +261,32 @@ func runRule(c *core.Ctx) {
 	c.Decide(len(problems) == 0, "C09-RUN", key, pos, fmt.Sprintf("%d paths: usable iff the producer on that path succeeded; parts = that producer's output; packed route iff packed GSM-7", len(ps)), strings.Join(dedup(problems), "; "))
 }
 
+// unspill: a receiver captured by a closure is spilled to a cell (new *T; *cell = recv; recv' = *cell): recv' is recv.
+func unspill(v ssa.Value) ssa.Value {
+	u, ok := v.(*ssa.UnOp)
+	if !ok || u.Op != token.MUL {
+		return v
+	}
+	al, ok := u.X.(*ssa.Alloc)
+	if !ok || al.Referrers() == nil {
+		return v
+	}
+	var stored ssa.Value
+	n := 0
+	for _, r := range *al.Referrers() {
+		if st, ok := r.(*ssa.Store); ok && st.Addr == ssa.Value(al) {
+			stored = st.Val
+			n++
+		}
+	}
+	if n == 1 {
+		if _, isParam := stored.(*ssa.Parameter); isParam {
+			return stored
+		}
+	}
+	return v
+}
+
 func isCodecValue(v ssa.Value) bool {
 	nt := namedOfType(v.Type())
 	return nt != nil && nt.Obj().Name() == "Codec"
@@ -347,15 +373,56 @@ func sorterRules(c *core.Ctx) {
 			for _, ins := range b.Instrs {
 				switch x := ins.(type) {
 				case *ssa.Store:
-					if f, ok := recvFieldStore(x, recv, func(v ssa.Value) ssa.Value { return v }); ok && f == "encoders" && len(fn.Params) == 2 && x.Val == ssa.Value(fn.Params[1]) {
+					if f, ok := recvFieldStore(x, recv, unspill); ok && f == "encoders" && len(fn.Params) == 2 && x.Val == ssa.Value(fn.Params[1]) {
 						stored = true
 					}
 				case *ssa.Call:
 					if cal := x.Call.StaticCallee(); cal != nil && cal.Pkg != nil && cal.Pkg.Pkg.Path() == "sort" && (cal.Name() == "Sort" || cal.Name() == "Stable") {
-						if mi, ok := x.Call.Args[0].(*ssa.MakeInterface); ok && mi.X == recv {
+						if mi, ok := x.Call.Args[0].(*ssa.MakeInterface); ok && unspill(mi.X) == recv {
 							sorted = true
 							if !stored {
 								order = false
+							}
+						}
+					}
+					// sort.Slice(encoders, func(i, j int) bool { return b.Less(i, j) }) sorts the same slice with the same order
+					if cal := x.Call.StaticCallee(); cal != nil && cal.Pkg != nil && cal.Pkg.Pkg.Path() == "sort" && (cal.Name() == "Slice" || cal.Name() == "SliceStable") && len(x.Call.Args) == 2 {
+						arg := x.Call.Args[0]
+						if mi, ok := arg.(*ssa.MakeInterface); ok {
+							arg = mi.X
+						}
+						sameSlice := len(fn.Params) == 2 && arg == ssa.Value(fn.Params[1])
+						bindsRecv := false
+						if mc, ok := x.Call.Args[1].(*ssa.MakeClosure); ok && len(mc.Bindings) == 1 {
+							if mc.Bindings[0] == recv {
+								bindsRecv = true
+							} else if al, isA := mc.Bindings[0].(*ssa.Alloc); isA && al.Referrers() != nil {
+								for _, r := range *al.Referrers() {
+									if st, isS := r.(*ssa.Store); isS && st.Addr == ssa.Value(al) && st.Val == recv {
+										bindsRecv = true
+									}
+								}
+							}
+						}
+						if mc, ok := x.Call.Args[1].(*ssa.MakeClosure); ok && sameSlice && bindsRecv {
+							cf := mc.Fn.(*ssa.Function)
+							isFree := func(v ssa.Value) bool {
+								if v == ssa.Value(cf.FreeVars[0]) {
+									return true
+								}
+								u, isU := v.(*ssa.UnOp)
+								return isU && u.Op == token.MUL && u.X == ssa.Value(cf.FreeVars[0])
+							}
+							if len(cf.Blocks) == 1 && len(cf.Params) == 2 {
+								if ret, isR := cf.Blocks[0].Instrs[len(cf.Blocks[0].Instrs)-1].(*ssa.Return); isR && len(ret.Results) == 1 {
+									if lc, isC := ret.Results[0].(*ssa.Call); isC && lc.Call.StaticCallee() != nil && lc.Call.StaticCallee().Name() == "Less" && len(lc.Call.Args) == 3 &&
+										isFree(lc.Call.Args[0]) && lc.Call.Args[1] == ssa.Value(cf.Params[0]) && lc.Call.Args[2] == ssa.Value(cf.Params[1]) {
+										sorted = true
+										if !stored {
+											order = false
+										}
+									}
+								}
 							}
 						}
 					}
@@ -675,7 +742,31 @@ func buildExtras(c *core.Ctx) {
 		newEnc := c.Prog.SSAFunc(c.Prog.LookupFunc("", "newBatchEncoder"))
 		var problems []string
 		nRes := 0
+		// the fallback may live in Build or in an unexported method Build hands over to (`return b.buildFallback(..)`)
+		var blocks []*ssa.BasicBlock
+		blocks = append(blocks, build.Blocks...)
 		for _, b := range build.Blocks {
+			for _, ins := range b.Instrs {
+				if call, ok := ins.(*ssa.Call); ok {
+					if cal := call.Call.StaticCallee(); cal != nil && cal.Pkg == build.Pkg && cal.Object() != nil && !cal.Object().Exported() && len(cal.Blocks) > 0 && cal.Signature.Recv() != nil {
+						// its results must be what Build returns
+						if ret, isR := b.Instrs[len(b.Instrs)-1].(*ssa.Return); isR && len(ret.Results) == 3 {
+							direct := true
+							for i, r := range ret.Results {
+								ex, isE := r.(*ssa.Extract)
+								if !isE || ex.Tuple != ssa.Value(call) || ex.Index != i {
+									direct = false
+								}
+							}
+							if direct {
+								blocks = append(blocks, cal.Blocks...)
+							}
+						}
+					}
+				}
+			}
+		}
+		for _, b := range blocks {
 			for k, ins := range b.Instrs {
 				call, ok := ins.(*ssa.Call)
 				if !ok || call.Call.StaticCallee() == nil || call.Call.StaticCallee().Name() != "Result" || len(call.Call.Args) != 1 {
@@ -895,11 +986,30 @@ func buildExtras(c *core.Ctx) {
 			if !okBound {
 				problems = append(problems, "the loop does not run while idx < len(compareFuncs)-1: a comparator is skipped or the last one is consulted twice")
 			}
-			// comparators are indexed by idx only
+			// comparators are indexed by idx (in the loop) or by len(compareFuncs)-1 (after it: the index's final value)
+			isLastIndex := func(v ssa.Value) bool {
+				sub, isS := v.(*ssa.BinOp)
+				if !isS || sub.Op != token.SUB {
+					return false
+				}
+				k, isK := constInt(sub.Y)
+				call, isC := sub.X.(*ssa.Call)
+				if !isK || k != 1 || !isC {
+					return false
+				}
+				bi, isBi := call.Call.Value.(*ssa.Builtin)
+				return isBi && bi.Name() == "len" && isRecvFieldLoad(call.Call.Args[0], r, "compareFuncs")
+			}
 			for _, b := range less.Blocks {
 				for _, ins := range b.Instrs {
 					if ia, ok := ins.(*ssa.IndexAddr); ok && isRecvFieldLoad(ia.X, r, "compareFuncs") && ia.Index != ssa.Value(idx) {
-						problems = append(problems, "a comparator is selected by something other than the running index")
+						if isLastIndex(ia.Index) && !hb.Dominates(b) {
+							problems = append(problems, "the last comparator is consulted before the loop")
+						} else if !isLastIndex(ia.Index) {
+							problems = append(problems, "a comparator is selected by something other than the running index")
+						} else if reaches(b, hb) {
+							problems = append(problems, "the last comparator is consulted inside the loop")
+						}
 					}
 				}
 			}
